@@ -638,15 +638,8 @@ def run(ctx, facts):
     ctx.floor("C02 EXIT instances", ne, 20)
     # tracker accessor shapes
     MT = "maxvaluetrack::MaxValueTracker::<V>::"
-    shapes = {"get_max_value": "{self.values[self.last_index]}", "is_update_possible": "{(value < self.values[self.last_index])}",
-              "get_value": "{self.values[slot]}"}
-    for name, want in shapes.items():
-        f = facts.fn(MT + name)
-        got = nf.nf(f["hir"])
-        if got.replace(" ", "").strip("{}") == want.replace(" ", "").strip("{}"):
-            ctx.ok("TRACKERSHAPE", MT + name, got, hirq.loc(f))
-        else:
-            ctx.violation("TRACKERSHAPE", MT + name, "accessor shape", hirq.loc(f), "expected %s, found %s" % (want, got[:100]))
+    from . import C15 as _C15
+    _C15.accessor_shapes(ctx, facts)
     for fid in PROTO_FNS:
         _band_rule(ctx, facts, fid)
         _compact_rule(ctx, facts, fid)
